@@ -13,6 +13,7 @@ Requests (tokens as in `Model.LinkerProto`: names without blanks, hex byte strin
   relax  <OBJ>    `Model.Relax.doRelaxations`
   finish <OBJ>    `Model.RelaxLink.finish`       (relaxation + relocation = the end of `Linker.link`)
   plain  <OBJ>    `Model.RelaxLink.finishPlain`  (relocation only = the unrelaxed link)
+  all    <OBJ>    the three of them on one parsed object: `<plain reply> ;; <relax reply> ;; <finish reply>`
   OBJ := S <n> {name addr align hex} Y <n> {id name g|l value|- sect(-|=name) typ size}
          R <n> {typ symid sect offset addend} E <id|-> I <n> {name addr k {secname}}
   → `err <Kind>` | `ok S n {name addr align hex} Y n {…} R n {…} H n {sect off size} V n {value|!Kind}`
@@ -144,6 +145,14 @@ def step (line : String) : String :=
       match finishPlain o with
       | .error e => "err " ++ e.name
       | .ok o' => sObj o' []
+    | _ => "bad-op"
+  | "all" :: rest =>
+    match pObjI rest with
+    | some (o, []) =>
+      let a := match finishPlain o with | .error e => "err " ++ e.name | .ok o' => sObj o' []
+      let b := match doRelaxations o with | .error e => "err " ++ e.name | .ok (o', m) => sObj o' m
+      let c := match finish o with | .error e => "err " ++ e.name | .ok (o', m) => sObj o' m
+      a ++ " ;; " ++ b ++ " ;; " ++ c
     | _ => "bad-op"
   | ["insn", h] =>
     match fromHex h with
